@@ -78,7 +78,8 @@ theorem population_size_noisy (sortByLoss : List (List α) → List (List α))
 
 end pop
 
-/-- **T3 (finding F3).** The optimiser is called with fewer than scipy's minimum of five population members
+/-- **T3 (F3: a defect of the code before `2124e35`, repaired in /repo — the population is now topped up to five; the
+theorem says exactly where the top-up is needed).** The initial estimates number fewer than scipy's minimum of five
 exactly when `a`, `b` (and `o`) are fixed and `c` is fitted over at most four values. -/
 theorem population_below_scipy_minimum_iff (cls : Cls) (fr : Free) (ncs : Nat) (h1 : 1 ≤ ncs)
     (hc : fr.c = false → ncs = 1) (hq : cls = .quad → fr.o = false) :
@@ -114,7 +115,8 @@ theorem ks_index_defined_of_side_conditions (edgeLo : E) (ll : Option E) (obs : 
 
 end buckets
 
-/-- witness (finding F2): all uncensored observations equal to the upper limit, box collapsed onto it -/
+/-- witness (F2; before `b238e9d` the code raised `IndexError` here, now `OptimizationError`): all uncensored
+observations equal to the upper limit, box collapsed onto it -/
 theorem F2_witness : ksModel? (E := Nat) 1 none [1, 1, 1, 1, 1] (some 1) 1 0 1 = none ∧
     ksModel? (E := Nat) 0 none [] (some 8) 8 0 2 = none := by decide
 
@@ -182,7 +184,9 @@ theorem box_raises_optimization_error [Sub α] [Add α] [Mul α] (zero negInf po
 
 /-- **T6 (the loop and after).** Beyond `OptimizationError` the loop can only end in an exception of the
 box construction, in `IndexError` when some pass ran the bucket fix-ups out of range (F2), or in scipy's
-`ValueError` when some pass called the optimiser with fewer than five members (F3). -/
+`ValueError` when some pass called the optimiser with fewer than five members (F3).  The last two are the
+model's record of where the code before `b238e9d` / `2124e35` leaked; the correspondence check accepts only a
+conforming exception (resp. a returned instance) of the repaired code there and reports the old outcome. -/
 theorem loop_exception_table {β : Type} [LinearOrder β] (inf : β) (isFinite : β → Bool) (passes : List (Pass β))
     (e : Exc) (h : fitOutcome inf isFinite passes = .error e) :
     e = .optimizationError ∨ (∃ p ∈ passes, p.planErr = some e) ∨
